@@ -243,6 +243,28 @@ fn snapshot_iteration_underflow() -> Option<String> {
     }
 }
 
+/// C09: an authorizer restored from a snapshot that has not run yet (execution_time 0) and whose
+/// iteration counter is close to u64::MAX: World::run_with_limits adds the rounds to the counter
+fn snapshot_iteration_overflow() -> Option<String> {
+    use prost::Message;
+    use biscuit_auth::format::schema;
+    let root = KeyPair::new();
+    let t = Biscuit::builder().fact("f(1)").unwrap().rule("g($x) <- f($x)").unwrap().build(&root).unwrap();
+    let a = AuthorizerBuilder::new().policy("allow if true").unwrap().build(&t).unwrap();
+    let raw = a.to_raw_snapshot().unwrap();
+    let mut snap = schema::AuthorizerSnapshot::decode(&raw[..]).unwrap();
+    snap.world.iterations = u64::MAX;
+    snap.limits.max_iterations = u64::MAX;
+    snap.execution_time = 0;
+    let mut out = Vec::new();
+    snap.encode(&mut out).unwrap();
+    let mut restored = match Authorizer::from_raw_snapshot(&out) { Ok(r) => r, Err(_) => return None };
+    match quiet(|| restored.authorize().map(|_| ())) {
+        Err(p) => Some(format!("Authorizer::from_raw_snapshot(iterations = u64::MAX, execution_time = 0).authorize() panics: {}", p)),
+        Ok(_) => None,
+    }
+}
+
 /// run `case` in a child process; report how it ended (a panic inside an extern "C" function aborts the process)
 fn in_child(case: &str) -> Result<String, String> {
     let exe = std::env::current_exe().unwrap();
@@ -346,6 +368,7 @@ fn main() {
         "reject_if_alternatives" => reject_if_alternatives(),
         "capi_public_key_serialize_secp256r1" | "capi_public_key_serialize_ed25519" | "capi_serialize_sealed" => capi_case(&case),
         "snapshot_iteration_underflow" => snapshot_iteration_underflow(),
+        "snapshot_iteration_overflow" => snapshot_iteration_overflow(),
         "facts_over_budget_at_start" => facts_over_budget_at_start(),
         _ => { eprintln!("unknown case {}", case); std::process::exit(2) }
     };
